@@ -560,8 +560,11 @@ class InProtocolBase(ProtocolMixin):
         seconds = i
         microseconds = int(round(1e6 * f))
 
-        delta = timedelta(days=days, hours=hours, minutes=minutes,
-            seconds=seconds, microseconds=microseconds)
+        try:
+            delta = timedelta(days=days, hours=hours, minutes=minutes,
+                seconds=seconds, microseconds=microseconds)
+        except OverflowError:
+            raise ValidationError(string, "Duration %r is too long")
 
         if duration['sign'] == "-":
             delta *= -1
